@@ -9,3 +9,5 @@ import GoRedisModel.Properties.C07
 import GoRedisModel.Properties.C10
 import GoRedisModel.Properties.C11
 import GoRedisModel.Properties.C20
+import GoRedisModel.Properties.C08
+import GoRedisModel.Properties.C13
